@@ -456,7 +456,13 @@ fn check_requests(log: &crate::iod::ReadLog, input_len: usize, declared_sum: u64
 fn http_script(t: &Transport) -> Script {
     match t {
         Transport::HttpBad { nth, kind, k } => {
-            let a = match kind % 5 {
+            // declared lengths a lying server may announce: off by one either way, and sizes no allocation can satisfy
+            let lies: [u64; 8] = [0, 1, 1 << 31, 1 << 40, 1 << 46, 1 << 62, i64::MAX as u64, u64::MAX];
+            let a = match kind % 8 {
+                5 => Action { declared_len: Some(lies[*k as usize % lies.len()]), ..Default::default() },
+                6 => Action { declared_len: Some(lies[*k as usize % lies.len()]), body: Body::Short(*k as usize), ..Default::default() },
+                // no Content-Length at all: a chunked response is valid HTTP and must simply work
+                7 => Action { chunked: true, pieces: vec![1 + *k as usize], ..Default::default() },
                 0 => Action { body: Body::Extra(1 + *k as usize), ..Default::default() },
                 1 => Action { status: if k % 2 == 0 { 404 } else { 200 }, body: Body::Page, ..Default::default() },
                 2 => Action { body: Body::Empty, ..Default::default() },
@@ -703,7 +709,7 @@ pub fn case_strategy() -> impl Strategy<Value = Case> {
         arch_cfg_strategy(4, true),
         prop::collection::vec(mutation_strategy(), 1..4),
         prop_oneof![1 => Just(None), 2 => related_strategy(200).prop_map(Some)],
-        prop_oneof![5 => Just(Transport::Local), 1 => Just(Transport::Http), 2 => (0u8..4, 0u8..5, 0u8..8).prop_map(|(nth, kind, k)| Transport::HttpBad { nth, kind, k })],
+        prop_oneof![5 => Just(Transport::Local), 1 => Just(Transport::Http), 3 => (0u8..4, 0u8..8, 0u8..8).prop_map(|(nth, kind, k)| Transport::HttpBad { nth, kind, k })],
         prop::bool::weighted(0.05),
     )
         .prop_map(|(source, cfg, muts, seed, transport, l2)| Case { source, cfg, muts, seed, transport, l2 })
